@@ -174,7 +174,19 @@ namespace vh
             {
                 try
                 {
-                    if (karr)
+                    if (s.get_int("setters", 0))
+                    {
+                        // built with other parameters, then brought to the target ones through the
+                        // public setters (the observable behaviour must be that of a fresh eroder)
+                        er = std::make_shared<fs::spl_eroder<fg_t>>(*h.fg, 0.123, 0.77, 1.0, tol);
+                        if (karr)
+                            er->set_k_coef(kv);
+                        else
+                            er->set_k_coef(ks);
+                        er->set_area_exp(m_exp);
+                        er->set_slope_exp(n_exp);
+                    }
+                    else if (karr)
                         er = std::make_shared<fs::spl_eroder<fg_t>>(*h.fg, kv, m_exp, n_exp, tol);
                     else
                         er = std::make_shared<fs::spl_eroder<fg_t>>(*h.fg, ks, m_exp, n_exp, tol);
